@@ -129,6 +129,9 @@ def run(ctx):
     # toml::from_str::<toml::Value> under both map builds: same verdict, values equal up to order
     lake_build(ctx, ["TomlVerif.Props.C18Decode"], {"TomlVerif.Props.C18Decode": "property theorems: decodeValue under both map builds"})
     audit(ctx, "TomlVerif.Props.C18Decode", "TomlVerif/Props/C18Decode.lean")
+    if ctx.tier == "thorough":
+        for m in ("TomlVerif.Props.C18", "TomlVerif.Props.C18Parsed", "TomlVerif.Props.C18Decode"):
+            leanchecker(ctx, m)
     cells = CELLS_QUICK if ctx.tier == "quick" else CELLS_ALL
     lines, meta = battery()
     rc, model, _ = run_lines(driver_path(), "c18", lines)
